@@ -3,6 +3,7 @@ package main
 import (
 	"fmt"
 	"go/ast"
+	"go/token"
 	"go/types"
 	"os"
 	"sort"
@@ -89,11 +90,19 @@ func c12Run(r *Run) {
 				return true
 			}
 			se, ok := ast.Unparen(c.Fun).(*ast.SelectorExpr)
-			if !ok {
-				return true
-			}
-			if fieldOf(se.X) == fBase {
+			if ok && fieldOf(se.X) == fBase {
 				out[se.Sel.Name] = c
+			}
+			// a method value of the base VM handed to a helper (lookup(vm.Base.GetClass, …)) is a call
+			// the helper makes on this method's behalf
+			for _, a := range c.Args {
+				if ase, ok := ast.Unparen(a).(*ast.SelectorExpr); ok && fieldOf(ase.X) == fBase {
+					if _, isFunc := info.TypeOf(ase).Underlying().(*types.Signature); isFunc {
+						if _, seen := out[ase.Sel.Name]; !seen {
+							out[ase.Sel.Name] = c
+						}
+					}
+				}
 			}
 			return true
 		})
@@ -110,49 +119,111 @@ func c12Run(r *Run) {
 		}
 		key := funcKey(pkg, fd) + "#own-table"
 		writesOwn, bad := false, ""
-		// local aliases of the own tables (tbl := t.addedFuncs)
-		aliasOf := map[types.Object]*types.Var{}
-		ast.Inspect(fd.Body, func(n ast.Node) bool {
-			if as, ok := n.(*ast.AssignStmt); ok && len(as.Lhs) == len(as.Rhs) {
-				for i := range as.Lhs {
-					if f := fieldOf(as.Rhs[i]); f != nil && ownMaps[f] {
-						if id, ok := as.Lhs[i].(*ast.Ident); ok {
-							if o := info.Defs[id]; o != nil {
-								aliasOf[o] = f
-							}
+		// own storage: whatever is reached from the TempVM receiver without passing through the base VM
+		// (its map fields, or the maps of a helper struct it holds); helpers that receive such storage
+		// as receiver or argument are followed
+		throughBase := func(e ast.Expr) bool {
+			via := false
+			ast.Inspect(e, func(n ast.Node) bool {
+				if x, ok := n.(ast.Expr); ok {
+					if fieldOf(x) == fBase {
+						via = true
+					}
+					if t := info.TypeOf(x); t != nil {
+						if pt, ok := t.(*types.Pointer); ok && namedOf(pt.Elem()) == vm {
+							via = true
 						}
 					}
 				}
+				return !via
+			})
+			return via
+		}
+		var visit func(body *ast.BlockStmt, own map[types.Object]bool, depth int)
+		visit = func(body *ast.BlockStmt, own map[types.Object]bool, depth int) {
+			var ownExpr func(e ast.Expr) bool
+			ownExpr = func(e ast.Expr) bool {
+				switch x := ast.Unparen(e).(type) {
+				case *ast.Ident:
+					return own[info.Uses[x]]
+				case *ast.SelectorExpr:
+					return !throughBase(x) && ownExpr(x.X)
+				case *ast.StarExpr:
+					return ownExpr(x.X)
+				case *ast.UnaryExpr:
+					return x.Op == token.AND && ownExpr(x.X)
+				}
+				return false
 			}
-			return true
-		})
-		ast.Inspect(fd.Body, func(n ast.Node) bool {
-			switch x := n.(type) {
-			case *ast.AssignStmt:
-				for _, l := range x.Lhs {
-					if ix, ok := ast.Unparen(l).(*ast.IndexExpr); ok {
-						f := fieldOf(ix.X)
-						if f == nil {
-							if id, ok := ast.Unparen(ix.X).(*ast.Ident); ok {
-								f = aliasOf[info.Uses[id]]
+			// local aliases (tbl := t.addedFuncs, s := vm.local)
+			for pass := 0; pass < 2; pass++ {
+				ast.Inspect(body, func(n ast.Node) bool {
+					if as, ok := n.(*ast.AssignStmt); ok && len(as.Lhs) == len(as.Rhs) {
+						for i := range as.Lhs {
+							if id, ok := as.Lhs[i].(*ast.Ident); ok && ownExpr(as.Rhs[i]) {
+								if o := info.Defs[id]; o != nil {
+									own[o] = true
+								}
 							}
 						}
-						if f != nil {
-							if ownMaps[f] {
+					}
+					return true
+				})
+			}
+			ast.Inspect(body, func(n ast.Node) bool {
+				switch x := n.(type) {
+				case *ast.AssignStmt:
+					for _, l := range x.Lhs {
+						if ix, ok := ast.Unparen(l).(*ast.IndexExpr); ok {
+							if _, isMap := info.TypeOf(ix.X).Underlying().(*types.Map); !isMap {
+								continue
+							}
+							if ownExpr(ix.X) {
 								writesOwn = true
-							} else {
+							} else if throughBase(ix.X) {
 								bad = "stores into " + exprStr(ix.X)
 							}
 						}
 					}
+				case *ast.CallExpr:
+					if se, ok := ast.Unparen(x.Fun).(*ast.SelectorExpr); ok && fieldOf(se.X) == fBase {
+						bad = "calls Base." + se.Sel.Name
+						return true
+					}
+					if depth >= 3 {
+						return true
+					}
+					cal := calleeFunc(info, x)
+					if cal == nil || cal.Pkg() != pkg.Types {
+						return true
+					}
+					hd := declOf(pkg, cal)
+					if hd == nil || hd.Body == nil {
+						return true
+					}
+					sub := map[types.Object]bool{}
+					if se, ok := ast.Unparen(x.Fun).(*ast.SelectorExpr); ok && hd.Recv != nil && len(hd.Recv.List) == 1 && len(hd.Recv.List[0].Names) == 1 && ownExpr(se.X) {
+						sub[info.Defs[hd.Recv.List[0].Names[0]]] = true
+					}
+					for i, a := range x.Args {
+						if ownExpr(a) {
+							if po := paramObjAt(info, hd, i); po != nil {
+								sub[po] = true
+							}
+						}
+					}
+					if len(sub) > 0 {
+						visit(hd.Body, sub, depth+1)
+					}
 				}
-			case *ast.CallExpr:
-				if se, ok := ast.Unparen(x.Fun).(*ast.SelectorExpr); ok && fieldOf(se.X) == fBase {
-					bad = "calls Base." + se.Sel.Name
-				}
-			}
-			return true
-		})
+				return true
+			})
+		}
+		root := map[types.Object]bool{}
+		if fd.Recv != nil && len(fd.Recv.List) == 1 && len(fd.Recv.List[0].Names) == 1 {
+			root[info.Defs[fd.Recv.List[0].Names[0]]] = true
+		}
+		visit(fd.Body, root, 0)
 		switch {
 		case bad != "":
 			r.bad(key, fd.Pos(), fmt.Sprintf("TempVM.%s %s: the definition becomes visible outside this request", name, bad))
